@@ -1431,6 +1431,11 @@ def formula_specs(trees):
                              callees={'self.predict_mu': dict(kind='value', t='S', lean='rate')},
                              fragment=frag_final_return,
                              what='one entry; the final `return` (after validation, the float32 cast and the `None` default of `exposure`); `self.predict_mu(X)` ↦ `rate`'))
+    specs.append(FormulaSpec('quantile_line', 'gam', ('pygam.py', 'GAM', '_get_quantiles', None),
+                             pre=[], params=['X', 'X', 'X', 'X', 'S', 'X', 'X', 'X'], attrs=gam_attrs, callees={},
+                             fragment=frag_quantile_line, frag_vars={'q': ('S', 'q'), 'var': ('S', 'var')},
+                             what='one entry of one interval line on the link scale: the argument of `lines.append(…)` in the loop over the levels '
+                                  '(`q` the reference quantile, `var` the variance of the linear predictor, `lp` the linear predictor)'))
     # the built-in Deviance callback: what is logged at the start of each iteration (C20)
     cb_attrs = {'dist.distribution': ('D', None)}      # the `gam` parameter has role 'D' (an object whose attributes are read): its paths start with `dist`
     specs.append(FormulaSpec('callback_deviance', 'gam', ('callbacks.py', 'Deviance', 'on_loop_start', None),
@@ -1618,6 +1623,21 @@ def frag_final_return(fn):
     if not isinstance(fn.body[-1], ast.Return):
         raise Unsupported('the method does not end in `return`')
     return [fn.body[-1]]
+
+
+def frag_quantile_line(fn):
+    """`GAM._get_quantiles`: the argument of the single `lines.append(…)` inside a top-level `for quantile in quantiles:` loop,
+    as a synthetic `return <argument>` (one interval line on the link scale)"""
+    found = []
+    for s in fn.body:
+        if isinstance(s, ast.For) and isinstance(s.target, ast.Name) and s.target.id == 'quantile':
+            for t in ast.walk(s):
+                if isinstance(t, ast.Call) and isinstance(t.func, ast.Attribute) and t.func.attr == 'append' \
+                        and isinstance(t.func.value, ast.Name) and t.func.value.id == 'lines' and len(t.args) == 1 and not t.keywords:
+                    found.append(t)
+    if len(found) != 1:
+        raise Unsupported('expected exactly one `lines.append(…)` in the loops over `quantiles`, found %d' % len(found))
+    return [ast.copy_location(ast.Return(value=found[0].args[0]), found[0])]
 
 
 frag_leading_raises = make_frag_leading_raises('n_draws')
